@@ -660,15 +660,32 @@ func (c *Ctx) r163() {
 		if s != "t.Hash == Html" && s != "t.Hash == Head" && s != "t.Hash == Body" {
 			return false
 		}
-		// only the tests in the tag-skipping condition (those followed by a break)
-		for _, o := range y.Succs {
-			if o.Kind == flow.KTrue {
-				p := g.Path(flow.Search{From: []*flow.Node{o}, Goal: func(q *flow.Node) bool {
-					b, ok := q.Stmt.(*ast.BranchStmt)
-					return q.Kind == flow.KStmt && ok && b.Tok == token.BREAK
-				}, Avoid: func(q *flow.Node) bool { return q.Kind == flow.KStmt && retStmt(q) == nil && !isBreak(q) }})
-				return p != nil
+		// only the tests in the tag-skipping condition: the condition of the if statement whose body drops the tag with
+		// an unlabelled break (possibly after a look-ahead); a test of t.Hash inside that look-ahead is not a removal test
+		for p := c.P.Parent(y.Expr); p != nil; p = c.P.Parent(p) {
+			ifs, ok := p.(*ast.IfStmt)
+			if !ok {
+				if _, isExpr := p.(ast.Expr); isExpr {
+					continue
+				}
+				return false
 			}
+			if y.Expr.Pos() < ifs.Cond.Pos() || y.Expr.End() > ifs.Cond.End() {
+				return false
+			}
+			drops := false
+			ast.Inspect(ifs.Body, func(q ast.Node) bool {
+				switch b := q.(type) {
+				case *ast.ForStmt, *ast.RangeStmt, *ast.SwitchStmt, *ast.TypeSwitchStmt, *ast.SelectStmt, *ast.FuncLit:
+					return false // a break in there leaves that statement, not the token switch
+				case *ast.BranchStmt:
+					if b.Tok == token.BREAK && b.Label == nil {
+						drops = true
+					}
+				}
+				return true
+			})
+			return drops
 		}
 		return false
 	}, "html/head/body tag removal test", 3)
